@@ -4,6 +4,7 @@ package main
 
 import (
 	"fmt"
+	"regexp"
 	"sort"
 	"strings"
 	"sync"
@@ -25,11 +26,13 @@ type Decls struct {
 	seen  map[string]bool
 	axiom []string // background assertions (ground or quantified), in order
 	axSet map[string]bool
+	giSet map[string]bool // assumptions that are global invariants: rendered only when one of their globals is mentioned
+	optAxioms []optAxiom // file-level axioms: included in a query only when relevant (relevance closure on spec.* symbols)
 	n     int
 }
 
 func NewDecls() *Decls {
-	d := &Decls{seen: map[string]bool{}, axSet: map[string]bool{}}
+	d := &Decls{seen: map[string]bool{}, axSet: map[string]bool{}, giSet: map[string]bool{}}
 	d.order = append(d.order,
 		"(declare-sort Str 0)",
 		"(declare-sort Any 0)",
@@ -59,6 +62,34 @@ func (d *Decls) Axiom(a string) {
 	}
 	d.axSet[a] = true
 	d.axiom = append(d.axiom, a)
+}
+
+type optAxiom struct {
+	text string
+	syms []string
+}
+
+var specSymRe = regexp.MustCompile(`spec\.[A-Za-z0-9_]+`)
+
+// OptAxiom registers a file-level axiom that is only relevant to queries mentioning one of its abstract symbols.
+func (d *Decls) OptAxiom(a string) {
+	if d.axSet["opt:"+a] {
+		return
+	}
+	d.axSet["opt:"+a] = true
+	seen := map[string]bool{}
+	var syms []string
+	for _, m := range specSymRe.FindAllString(a, -1) {
+		if !seen[m] {
+			seen[m] = true
+			syms = append(syms, m)
+		}
+	}
+	if len(syms) == 0 {
+		d.Axiom(a)
+		return
+	}
+	d.optAxioms = append(d.optAxioms, optAxiom{a, syms})
 }
 
 func (d *Decls) Const(name, sort string) string {
